@@ -6,6 +6,19 @@ use std::time::Duration;
 /// An asynchronous event receiver.
 pub struct Events;
 
+#[cfg(feature = "verif-hooks")]
+thread_local! {
+    /// Scripted terminal events. With the `verif-hooks` feature the real terminal is never polled.
+    static VERIF_QUEUE: std::cell::RefCell<std::collections::VecDeque<Event>> =
+        std::cell::RefCell::new(std::collections::VecDeque::new());
+}
+
+/// Queue a terminal event for the next call of [`Events::next`] on this thread.
+#[cfg(feature = "verif-hooks")]
+pub fn verif_inject(event: Event) {
+    VERIF_QUEUE.with(|q| q.borrow_mut().push_back(event));
+}
+
 impl Events {
     /// Create a new async Event reader.
     pub fn new() -> Events {
@@ -13,6 +26,9 @@ impl Events {
     }
     /// Get the next [`Event`].
     pub fn next(&mut self) -> Option<Event> {
+        #[cfg(feature = "verif-hooks")]
+        return VERIF_QUEUE.with(|q| q.borrow_mut().pop_front());
+        #[cfg(not(feature = "verif-hooks"))]
         match event::poll(Duration::from_secs(0)) {
             Ok(true) => event::read().ok(),
             _ => None,
